@@ -162,3 +162,45 @@ Definition field_same (f g : field) : Prop :=
   let rf := reg (fmesh f) in let rg := reg (fmesh g) in
   pmin rg = pmin rf /\ pmax rg = pmax rf /\ dims rg = dims rf /\ units rg = units rf /\ tf rg = tf rf /\
   n (fmesh g) = n (fmesh f) /\ fnvdim g = fnvdim f /\ fdtype g = fdtype f /\ fdata g = fdata f.
+
+(* ---------- names for the quantities from_xarray derives (used in theorem statements) ---------- *)
+(* the cell: the attribute wins; otherwise the mean spacing of every axis *)
+Definition eff_cell (xa : dataarray) : res (list Q) :=
+  match a_cell xa with
+  | Some c => OK c
+  | None =>
+      if existsb (Z.eqb 1) (removelast (xshape xa)) then Err KeyE else
+      match all_some (map mean_spacing (xcoords xa)) with
+      | Some c => OK c
+      | None => Err ValueE
+      end
+  end.
+
+(* the corners: the attribute wins; otherwise half a (effective) cell beyond the outermost coordinates *)
+Definition eff_p1 (xa : dataarray) (c : list Q) : list Q :=
+  match a_pmin xa with
+  | Some p => p
+  | None => map2 (fun v cc => hd 0 v - cc / 2) (xcoords xa) c
+  end.
+Definition eff_p2 (xa : dataarray) (c : list Q) : list Q :=
+  match a_pmax xa with
+  | Some p => p
+  | None => map2 (fun v cc => last v 0 + cc / 2) (xcoords xa) c
+  end.
+Definition eff_units (xa : dataarray) (nd : nat) : list string :=
+  match all_some (xcunits xa) with Some u => u | None => repeat "m"%string nd end.
+Definition eff_tf (xa : dataarray) : Q :=
+  match a_tf xa with Some t => t | None => default_tf end.
+
+(* per-axis data (lo, hi, count, cell) for which Mesh(region, cell) is exact: lo < hi, count > 0,
+   count * cell == hi - lo on every axis *)
+Inductive axes : list Q -> list Q -> list Z -> list Q -> Prop :=
+| axes_nil : axes [] [] [] []
+| axes_cons lo hi k c los his ks cs :
+    lo < hi -> (0 < k)%Z -> inject_Z k * c == hi - lo -> axes los his ks cs ->
+    axes (lo :: los) (hi :: his) (k :: ks) (c :: cs).
+
+(* evenly spaced coordinates x0 + j*c, j = 0 .. k-1, on every axis *)
+Definition prog_axis (x0 c : Q) (k : Z) : list Q :=
+  map (fun j => x0 + inject_Z j * c) (ziota 0 (Z.to_nat k)).
+Definition prog_coords (x0s cs : list Q) (ks : list Z) : list (list Q) := map3 prog_axis x0s cs ks.
